@@ -171,3 +171,83 @@ mod tests {
         }
     }
 }
+
+// ---------------------------------------------------------------------------
+// high-precision variants for the wide-scalar (double-double) leg of C16
+
+impl Dy {
+    /// exact value of a double-double hi + lo
+    pub fn from_dd(hi: f64, lo: f64) -> Option<Dy> {
+        Some(Dy::from_f64(hi)?.add(&Dy::from_f64(lo)?))
+    }
+    pub fn cmp_dy(&self, o: &Dy) -> std::cmp::Ordering {
+        let d = self.sub(o);
+        match d.m.sign() {
+            Sign::Minus => std::cmp::Ordering::Less,
+            Sign::NoSign => std::cmp::Ordering::Equal,
+            Sign::Plus => std::cmp::Ordering::Greater,
+        }
+    }
+    /// sqrt rounded down to ~`bits` significant bits (self must be >= 0)
+    pub fn sqrt_hp(&self, bits: u64) -> Dy {
+        if self.m.is_zero() {
+            return Dy::zero();
+        }
+        let have = self.m.bits();
+        let mut k: i64 = (2 * bits) as i64 - have as i64;
+        if k < 0 {
+            k = 0;
+        }
+        if (self.e - k) % 2 != 0 {
+            k += 1;
+        }
+        let shifted: BigInt = &self.m << (k as usize);
+        Dy { m: shifted.sqrt(), e: (self.e - k) / 2 }
+    }
+    /// largest f64 that is <= self (self >= 0, within f64 range)
+    pub fn floor_f64(&self) -> f64 {
+        let mut v = self.to_f64();
+        if !v.is_finite() || v < 0.0 {
+            return v;
+        }
+        let up = |x: f64| f64::from_bits(x.to_bits() + 1);
+        let down = |x: f64| if x == 0.0 { 0.0 } else { f64::from_bits(x.to_bits() - 1) };
+        let mut guard = 0;
+        while Dy::from_f64(v).map(|d| d.cmp_dy(self) == std::cmp::Ordering::Greater).unwrap_or(false) && guard < 8 {
+            v = down(v);
+            guard += 1;
+        }
+        while up(v).is_finite()
+            && Dy::from_f64(up(v)).map(|d| d.cmp_dy(self) != std::cmp::Ordering::Greater).unwrap_or(false)
+            && guard < 16
+        {
+            v = up(v);
+            guard += 1;
+        }
+        v
+    }
+}
+
+/// L_{2,1} distance of inverse*matrix from the identity for double-double entries
+/// (hi, lo), to ~300 bits (rounded down).  None if anything is non-finite.
+pub fn l21_distance_hp(inv: &[(f64, f64)], mat: &[(f64, f64)], n: usize) -> Option<Dy> {
+    let a: Option<Vec<Dy>> = inv.iter().map(|(h, l)| Dy::from_dd(*h, *l)).collect();
+    let m: Option<Vec<Dy>> = mat.iter().map(|(h, l)| Dy::from_dd(*h, *l)).collect();
+    let (a, m) = (a?, m?);
+    let mut total = Dy::zero();
+    for j in 0..n {
+        let mut s = Dy::zero();
+        for i in 0..n {
+            let mut z = Dy::zero();
+            for k in 0..n {
+                z = z.add(&a[i * n + k].mul(&m[k * n + j]));
+            }
+            if i == j {
+                z = z.sub(&Dy::one());
+            }
+            s = s.add(&z.mul(&z));
+        }
+        total = total.add(&s.sqrt_hp(300));
+    }
+    Some(total)
+}
